@@ -35,6 +35,8 @@ fn main() {
         steel::verif::GC_EVERY.store(n.parse().unwrap_or(0), Ordering::SeqCst);
     }
     let check_use_free = std::env::var("VERIF_USE_FREE_CHECK").is_ok();
+    // VM-level event trace of every case (spec/Trace_Vm.tla), see verif_harness::vmrec
+    let vmtrace = vmrec::init_from_env();
     let text = std::fs::read_to_string(cases_path).expect("cases file");
     let out = Arc::new(Mutex::new(
         std::fs::OpenOptions::new().create(true).append(true).open(out_path).expect("out file"),
@@ -81,8 +83,10 @@ fn main() {
         let mut unplanned = false;
         let use_free0 = steel::verif::USE_FREE.load(Ordering::SeqCst);
         let mut host = HostState { uniq: uniq.clone(), ..Default::default() };
+        if vmtrace { vmrec::begin_case(&case.id); }
         for (si, st) in case.steps.iter().enumerate() {
             let src = st.src.replace("@@", &uniq);
+            if vmtrace && si > 0 { vmrec::mark_unit(); }
             *current.lock().unwrap() = Some((case.id.clone(), Instant::now()));
             let g0 = gen_of(e);
             let got = match &st.op {
@@ -97,6 +101,7 @@ fn main() {
             gots.push(got);
             if poisoned { break; }
         }
+        if vmtrace { vmrec::end_case(); }
         *current.lock().unwrap() = None;
         if poisoned && !case.fresh {
             // a panic may leave the shared engine in an arbitrary state; replace it
